@@ -1,1 +1,100 @@
-import CnlModel.Basic
+import CnlProofs.Charconv
+/-!
+# C14 — text output denotes the value
+
+Spec: `CnlSpec.Decimal` (`numeralValue`, `decimalValue`: readers written without reference to the
+printer; they are also the driver's oracle on the implementation's characters).
+
+Proved for every base 2…36 and every integer (any width): the numeral the model emits
+(`intText`, the digit string of `to_chars_natural` with the sign) reads back as exactly the value
+(`integer_numeral_denotes`) and has no leading zero (`integer_numeral_canonical`); it is exactly what a
+successful call leaves in `[first, p)` (`integer_text_is_numeral`, `integer_digits_in_buffer`).
+`descale_keeps_sign`: the rescaled significand has the sign of the value and is never zero.
+
+Kernel-checked witnesses: the unrepaired `descale` produced no text for non-negative exponents
+(`descale_unrepaired_diverges`); the repaired code still loses the last digit of some short expansions
+(`lossy_short_expansion_witness` — open finding `C14.lossy_rescaling_of_short_expansion`).
+
+Not proved (`FullDescaleInvariant`, `FullLayoutTruncates`): the loop invariant
+`|s·10^x| ≤ |input·radix^e|` (equality while no lossy division happened) and "printed = significand
+truncated to the digits kept"; both are checked by the oracle on every swept case instead
+(`within`, `exactly` in `CnlSpec.Decimal`).
+-/
+namespace Cnl.C14
+open Cnl Cnl.Charconv Cnl.Spec
+
+/-- the numeral of an integer reads back as its sign and magnitude, in every base the code supports -/
+theorem integer_numeral_denotes (base : Nat) (v : Int) (h2 : 2 ≤ base) (h36 : base ≤ 36) :
+    numeralValue base (intText base v) = some (decide (v < 0), v.natAbs) :=
+  intText_value base v h2 h36
+
+example : numeralValue 16 (intText 16 (-255)) = some (true, 255) := by decide
+
+/-- canonical: the first digit of a non-zero value is not `0` -/
+theorem integer_numeral_canonical (base : Nat) (v : Int) (h2 : 2 ≤ base) (h36 : base ≤ 36) (hv : v ≠ 0) :
+    ∃ c rest, natDigits base v.natAbs = c :: rest ∧ c ≠ '0' :=
+  intText_canonical base v h2 h36 hv
+
+/-- `cnl::to_chars` on an integer of any width, any supported value, any base 2…36, any buffer length: when it
+succeeds, the characters `[first, p)` are exactly the canonical numeral — which (`integer_numeral_denotes`)
+reads back as the value -/
+theorem integer_text_is_numeral (T : IntTy) (len : Nat) (v : Int) (base : Nat)
+    (hb : 2 ≤ base ∧ base ≤ 36) (hm : ¬ MostNegative T v) (hu : T.signed = false → 0 ≤ v) :
+    ∃ r, intToChars T (Buf.fresh len) v base = .ok r ∧
+      (r.ok = true → r.text = intText base v ∧
+        numeralValue base r.text = some (decide (v < 0), v.natAbs)) := by
+  obtain ⟨r, h1, h2⟩ := intToChars_text T len v base hb hm hu
+  refine ⟨r, h1, fun hok => ?_⟩
+  have := h2 hok
+  exact ⟨this, by rw [this]; exact intText_value base v hb.1 hb.2⟩
+
+example : ¬ MostNegative u64 18446744073709551615 ∧ (u64.signed = false → (0 : Int) ≤ 18446744073709551615) := by decide
+
+/-- what integer `to_chars_positive` leaves in the buffer: cell `first + k` holds digit `k` of the numeral -/
+theorem integer_digits_in_buffer (b : Buf) (first v base : Nat) (hw : b.WF) (hf : first ≤ b.len) :
+    ∃ r, natToChars b first v base = .ok r ∧
+      ∀ i, r.buf.cells[i]? =
+        if first ≤ i ∧ i < first + (natDigits base v).length ∧ i < b.len
+        then ((natDigits base v)[i - first]?).map some else b.cells[i]? := by
+  obtain ⟨r, hr, _, _, _, _, hc⟩ := natToChars_spec b first v base hw hf
+  exact ⟨r, hr, hc⟩
+
+/-- rescaling keeps the sign and never yields zero or leaves the significand type (every input, exponent,
+input radix 2…10, signed significand type): the printed sign is the value's sign -/
+theorem descale_keeps_sign (S : IntTy) (hs : S.signed = true) (h8 : 8 ≤ S.bits) (input e : Int) (R : Nat)
+    (hR2 : 2 ≤ R) (hR : R ≤ 10) (hr : S.InRange input) (h0 : input ≠ 0) :
+    ∃ d, descale S input e R = .ok d ∧ (input < 0 ↔ d.sig < 0) ∧ d.sig ≠ 0 := by
+  obtain ⟨d, hd, _, _, h3⟩ := descale_ok S hs h8 input e R hR2 hR hr h0
+  refine ⟨d, hd, ?_, ?_⟩
+  · by_cases hn : input < 0 <;> simp [hn] at h3 ⊢ <;> omega
+  · by_cases hn : input < 0 <;> simp [hn] at h3 <;> omega
+
+/-- the unrepaired `descale` never returned for non-negative exponents once out of headroom -/
+theorem descale_unrepaired_diverges : descaleOrig i64 3 70 2 = .diverges := by decide +kernel
+
+/-- open finding: `5^26 · 2^1 = 2980232238769531250` (18 significant digits) is rescaled with one lossy
+division: significand `298023223876953124`, exponent 1 -/
+theorem lossy_short_expansion_witness :
+    descale i64 (5 ^ 26) 1 2 = .ok ⟨298023223876953124, 1, 1⟩ ∧ (298023223876953124 : Int) * 10 ≠ 5 ^ 26 * 2 := by
+  decide +kernel
+
+/-- an exact case: `scaled_integer<int8_t, power<-4>>` rep −99 = −6.1875 -/
+theorem descale_exact_witness : descale i64 (-99) (-4) 2 = .ok ⟨-61875, -4, 0⟩ := by decide +kernel
+
+/-- full statement of the rescaling invariant (not proved) -/
+def FullDescaleInvariant : Prop :=
+  ∀ (S : IntTy) (input e : Int) (radix : Nat) (d : Desc), 8 ≤ S.bits → 2 ≤ radix → radix ≤ 10 → S.InRange input →
+    descale S input e radix = .ok d →
+    (0 ≤ input ↔ 0 ≤ d.sig) ∧
+    (let (num, den) := exactFrac input.natAbs radix e
+     (⟨false, d.sig.natAbs, d.exp⟩ : Dec).within num den (d.lossy * 100) S.max.toNat = true ∧
+     (d.lossy = 0 → (⟨false, d.sig.natAbs, d.exp⟩ : Dec).exactly num den = true))
+
+/-- full statement for the layouts (not proved): the text reads back as the significand truncated to the
+digits kept -/
+def FullLayoutTruncates : Prop :=
+  ∀ (b : Buf) (sig : Nat) (x : Int) (r : TCR), 0 < sig → b.WF →
+    toCharsPositive b 0 (natDigits 10 sig) x = .ok r → r.ok = true →
+    ∃ d, decimalValue r.text = some d ∧ d.neg = false ∧ d.within sig 1 0 1 = true ∨ x < 0
+
+end Cnl.C14
